@@ -140,9 +140,10 @@ pub fn guarded(prop: &str, f: impl FnOnce() -> CaseOut) -> CaseOut {
                 .take(40)
                 .map(|c| if c.is_ascii_alphanumeric() { c } else { '_' })
                 .collect();
+            let rule = if text.starts_with("machinery:") { "MACHINERY" } else { "PANIC" };
             CaseOut {
                 class: 0xDEAD_0002,
-                viol: vec![(format!("{}:PANIC:{}", prop, class), format!("client code panicked: {}", text))],
+                viol: vec![(format!("{}:{}:{}", prop, rule, class), format!("client code panicked: {}", text))],
             }
         }
     }
